@@ -80,6 +80,7 @@ struct Program {
     int verbose = 0; bool color = false, reverse = false, run_ignored = false, vsformat = false, nested = false;
     bool flag_e = false; bool string_buffer_output = false;
     std::vector<std::string> argv;  // modes 1,2
+    int bystander = 0;              // extra no-op plugin: see run_inner
     int nstmts = 0;
     std::string shape;
 };
@@ -460,7 +461,13 @@ static void run_inner() {
     o->depth_capacity = CppUTestVerif_JumpBufferCapacity();
     TestRegistry reg;
     RecPlugin plug("RecPlugin");
+    // a bystander plugin without any action of its own: 1 = disabled and ahead of the recording plugin in the chain,
+    // 2 = enabled and ahead, 3 = disabled and behind. It must never change what is recorded.
+    TestPlugin bystander("Bystander");
+    if (p.bystander == 3) { reg.installPlugin(&bystander); bystander.disable(); }
     reg.installPlugin(&plug);
+    if (p.bystander == 1) { reg.installPlugin(&bystander); bystander.disable(); }
+    if (p.bystander == 2) reg.installPlugin(&bystander);
     for (size_t i = p.tests.size(); i-- > 0;) reg.addTest(G.shells[i]);     // addTest prepends
     if (p.mode == 0) {
         TestFilter gfilt(p.gfs.c_str()), nfilt(p.nfs.c_str());
@@ -879,6 +886,7 @@ static int random_terminating_kind(vf::Rng& r, bool with_exit) {
 
 static void finish_program(vf::Rng& r, Program& p, GenState& g) {
     p.nstmts = g.next_id;
+    p.bystander = r.chance(40) ? 1 + (int) r.below(3) : 0;
     bool has_throw = false;
     for (const TestSpec& t : p.tests) for (int ph = 0; ph < 3; ph++) for (const Stmt& s : t.ph[ph]) if ((s.kind == K_THROWSTD || s.kind == K_THROWINT) && s.mask) has_throw = true;
     p.flag_e = has_throw || r.chance(40);
@@ -992,7 +1000,7 @@ static std::string describe(const Program& p) {
     }
     if (lim < p.tests.size()) ts.push_back(vf::jstr("... " + std::to_string(p.tests.size() - lim) + " more tests"));
     std::vector<std::string> av; for (const std::string& a : p.argv) av.push_back(vf::jstr(a));
-    return vf::J().k("mode", mode_name(p.mode)).k("build", VF_VARIANT).k("shape", p.shape).k("tests", (unsigned long) p.tests.size()).k("repetitions", p.reps)
+    return vf::J().k("mode", mode_name(p.mode)).k("build", VF_VARIANT).k("shape", p.shape).k("bystander_plugin", p.bystander).k("tests", (unsigned long) p.tests.size()).k("repetitions", p.reps)
         .k("group_filter", std::string(FNAME[p.gf]) + ":" + p.gfs).k("name_filter", std::string(FNAME[p.nf]) + ":" + p.nfs)
         .k("verbose", p.verbose).k("color", p.color).k("reverse", p.reverse).k("run_ignored", p.run_ignored).k("visual_studio_format", p.vsformat).k("nested_in_outer_test", p.nested)
         .k("string_buffer_output", p.string_buffer_output).raw("argv", vf::jarr(av)).raw("program", vf::jarr(ts)).str();
